@@ -27,7 +27,8 @@ XOk == {"file", "file_trunc", "file_json", "file_pat", "roll_delete", "roll_wind
 XBroken == {"file_unknown_key", "file_path_wrong_type", "file_append_wrong_type", "enc_unknown_key", "enc_unknown_kind",
             "policy_unknown_key", "policy_unknown_kind", "trigger_unknown_key", "trigger_unknown_kind", "trigger_neg_limit",
             "trigger_bad_unit", "roller_unknown_key", "roller_unknown_kind", "roller_neg_count", "roller_no_count",
-            "roller_no_braces", "console_bad_target", "unknown_kind", "time_zero_interval", "time_huge_interval"}
+            "roller_no_braces", "console_bad_target", "unknown_kind", "unknown_kind_with_filter", "file_no_path_with_filter",
+            "time_zero_interval", "time_huge_interval"}
 XVariants == XOk \cup XBroken
 DocVariants == {"ok", "doc_unknown_key", "root_unknown_key", "logger_unknown_key", "logger_no_level", "root_level_bad",
                 "logger_level_bad", "refresh_bad", "refresh_wrong_type", "appender_no_kind", "root_appenders_wrong_type",
